@@ -11,6 +11,8 @@ class NumberUnaryExpr(number_unary_expr.NumberUnaryExpr):
         if self._unary_op.raw_text == '+':
             return self._operand.value
         elif self._unary_op.raw_text == '-':
-            return -self._operand.value
+            operand = self._operand.value
+            # Exact negation: unary minus would round to the context precision. Zero stays unsigned as before.
+            return operand.copy_negate() if operand else -operand
         else:
             assert False
